@@ -53,6 +53,7 @@ Vecs == CASE FAMILY = "upd" -> UpdVecs(0) [] FAMILY = "updvar" -> VarVecs(0) [] 
           [] FAMILY = "open" -> OpenVecs(0) [] FAMILY = "openrt" -> OpenRtVecs(0) [] FAMILY = "notif" -> NotifVecs(0)
           [] FAMILY = "comm" -> {[kind |-> "comm", sub |-> 16, u |-> x] : x \in ExtPool(0)} \cup {[kind |-> "comm", sub |-> 8, u |-> x] : x \in StdPool(0)} \cup {[kind |-> "comm", sub |-> 16, u |-> x] : x \in RawPool(0)} \cup {[kind |-> "comm", sub |-> 16, u |-> x] : x \in MultiPool}
                                  \cup {[kind |-> "comm", sub |-> 32, u |-> x] : x \in LargePool(0)}
+                                 \cup {[kind |-> "comm", sub |-> 32, u |-> x] : x \in {y \in LargeMulti : SubSeq(y.o, 1, 12) # SubSeq(y.o, 13, 24) /\ SubSeq(y.o, 13, 24) # SubSeq(y.o, 25, 36) /\ SubSeq(y.o, 1, 12) # SubSeq(y.o, 25, 36)}}
           [] FAMILY = "updap" -> {[kind |-> "updap", asn4 |-> TRUE, var |-> Canon, u |-> x.u, wids |-> x.wids, nids |-> x.nids] : x \in AddPathVecs}
           [] FAMILY \in {"mp_ipv6", "mp_lu4", "mp_lu6", "mp_vpn4", "mp_vpn6", "mp_evpn", "mp_fs"} -> MpPool(SubSeq(FAMILY, 4, Len(FAMILY)))
           [] FAMILY = "enc" -> EncVecs(0)
